@@ -139,6 +139,30 @@ def run_case(kind, p):
     wf = utils.within_frame(coords, r, fy, fx) if len(want) else np.zeros(0, bool)
     if not np.array_equal(wf, np.array(sel, dtype=bool)):
         msgs.append("within_frame is not r <= p < f - r on both axes")
+    # the margin test does not depend on the dtype the caller keeps its peak positions in: integer pixel positions
+    # (as found by the correlation, int dtype) with a fractional margin r, and single precision positions
+    if len(want):
+        ip = np.round(coords).astype(np.int64)
+        j = len(ip) // 2
+        trips = [(r, fy, fx), (abs(float(ip[j][1])) + 0.5, fy, fx), (r, fy, float(ip[j][1]) + r + 0.5),
+                 (abs(float(ip[j][0])) + 0.25, fy, fx), (r + 0.5, float(ip[j][0]) + r + 0.75, fx)]
+        for r_, fy_, fx_ in trips:
+            isel = [(r_ <= c[0] < fy_ - r_) and (r_ <= c[1] < fx_ - r_) for c in ip.tolist()]
+            bad = False
+            for dt in (np.int64, np.int32, np.uint16 if ip.min() >= 0 else np.int16):
+                if np.abs(ip).max() < 30000:
+                    wfi = utils.within_frame(ip.astype(dt), r_, fy_, fx_)
+                    if not np.array_equal(wfi, np.array(isel, dtype=bool)):
+                        msgs.append(f"within_frame on {np.dtype(dt).name} positions {ip.tolist()} is not r <= p < f - r "
+                                    f"(r={r_}, frame {fy_}x{fx_}): {wfi.tolist()} expected {isel}")
+                        bad = True
+                        break
+            if bad:
+                break
+        c32 = coords.astype(np.float32)
+        s32 = [(r <= float(c[0]) < fy - r) and (r <= float(c[1]) < fx - r) for c in c32]
+        if not np.array_equal(utils.within_frame(c32, r, fy, fx), np.array(s32, dtype=bool)):
+            msgs.append(f"within_frame on float32 positions is not r <= p < f - r (r={r}, frame {fy}x{fx})")
     m = grm.Match(grm.CorrelationResult(np.zeros((len(flat), 2))), selector=None, zero=zero, a=a, b=b, indices=flat)
     c0 = m.calc_coords(indices=idx, drop_zero=True)
     keep = [not (i == 0 and j == 0) for i, j in flat]
